@@ -399,6 +399,18 @@ def replay(case):
     from ImageD11 import cImageD11 as cI, sparseframe as sf, labelimage
     import io
     sh = Shard()
+    if case["kind"] == "sched":
+        from vt.vrt import VRT, check_schedule_independence
+        V = VRT()
+        shp = tuple(case["shape"])
+        mask = np.array(case["mask"], bool)
+        data = np.ascontiguousarray(np.where(mask, 1.0, 0.0).astype(np.float32))
+        labels = np.full(shp, 7777, np.int32)
+        ref, res, bad = check_schedule_independence(V, "connectedpixels", [data, labels, 0, case["conn8"], shp[0], shp[1]], [0.5], (0,), [labels])
+        want, n_want = O.flood_components(mask, bool(case["conn8"]))
+        lab = np.frombuffer(ref[1], np.int32).reshape(shp)
+        ok = ref[0] == n_want and np.array_equal(O.canon_labels(lab), O.canon_labels(want)) and not bad
+        return ok, {"labels": lab, "n": ref[0], "expected_n": n_want, "schedule_dependent": [list(b) for b in bad]}
     if case["kind"] == "dense":
         shp = tuple(case["shape"])
         li = labelimage.labelimage(shp, fileout=io.StringIO(), sptfile=io.StringIO())
